@@ -58,6 +58,10 @@ PINS = [("autode/conformers/conformers.py", q) for q in (
     ("autode/atoms.py", "Atoms.__add__"), ("autode/atoms.py", "Atoms.__radd__"),  # Model.add_atoms (reflected dispatch)
     ("autode/mol_graphs.py", "union"),                                          # Model.union_from
     ("autode/geom.py", "calc_heavy_atom_rmsd"),                                 # the oracle d: heavy atoms only, 0.0 without any
+    ("autode/geom.py", "calc_rmsd"), ("autode/geom.py", "get_rot_mat_kabsch"),   # ... after optimal alignment (cross-checked too)
+    ("autode/species/species.py", "Species.reorder_atoms"),                     # node order of a molecule's graph (Model.g_order)
+    ("autode/mol_graphs.py", "reorder_nodes"),
+    ("autode/conformers/conformer.py", "Conformer.optimise"),                   # atoms = None on AtomsNotFound (stream atomless)
 ]
 
 SLICE = ["lib/Sums.v", "lib/QcInst.v", "C19/Model.v", "C19/Lemmas.v", "C19/Props.v", "C19/Corr.v"]
@@ -71,7 +75,14 @@ K_LT1 = "Conformers.prune_on_energy|n_sigma<1-empties"
 K_GE1 = "Conformers.prune_on_energy|n_sigma>=1-empties"
 K_LOW = "Conformers.prune_on_energy|lowest-lost"
 K_IDEM = "Conformers.prune_on_energy|not-idempotent"
+K_IDEM_PRUNE = "Conformers.prune|not-idempotent(recomputed-outliers)"
 
+K_REORDER = "Complex.__init__|graph-misaligned-after-reorder_atoms"
+PATCH_REORDER = ("proposed patch (autode/mol_graphs.py, reorder_nodes): build the relabelled graph with its nodes in label order, "
+                 "`g = nx.relabel_nodes(graph, mapping=..., copy=True); h = g.__class__(); h.graph.update(g.graph); "
+                 "h.add_nodes_from(sorted(g.nodes(data=True))); h.add_edges_from(g.edges(data=True)); return h` "
+                 "(or sort the nodes of every graph in mol_graphs.union before nx.disjoint_union_all)")
+K_ETOL_NONE = "Conformers.prune_on_energy|e_tol-None-raises"
 K_ORDER = "Complex.__init__|atoms-order-3+molecules"
 K_CAUSE = "Conformers.prune_on_energy|deleted-without-cause"
 PATCH_LT1 = ("proposed patch (autode/conformers/conformers.py, prune_on_energy, before the loop): "
@@ -183,6 +194,33 @@ def is_outlier(f, mu, varlb, n_sigma):
     return True if ns < 0 else (f - mu) ** 2 > ns * ns * varlb
 
 
+def _dyadic(q, bits=40):
+    d = q.denominator
+    return d & (d - 1) == 0 and d < 2**bits and abs(q.numerator) < 2**bits
+
+
+def float_exact_stats(w, n_sigma):
+    """True when np.average, np.std and |e-mu|/sigma are exact in IEEE doubles for these energies: every
+    intermediate (sum, mean, deviations, squares, variance, its square root, the quotients) is a small dyadic
+    rational, and correctly rounded +,-,*,/,sqrt return a representable exact result exactly."""
+    from math import isqrt
+    n = len(w)
+    mu = sum(w) / n
+    if not all(_dyadic(f) for f in w) or not _dyadic(mu):
+        return False
+    var = sum((f - mu) ** 2 for f in w) / n
+    if not _dyadic(var) or var <= 0 or not all(_dyadic((f - mu) ** 2) for f in w):
+        return False
+    num, den = var.numerator, var.denominator
+    rn, rd = isqrt(num), isqrt(den)
+    if rn * rn != num or rd * rd != den:
+        return False
+    sigma = Fraction(rn, rd)
+    if sigma < Fraction(1, 10**8):
+        return False
+    return all(_dyadic(abs(f - mu) / sigma) for f in w) and _dyadic(frac(n_sigma))
+
+
 def energy_margin_ok(ens, n_sigma):
     """False when some n-sigma decision is too close to call in floating point."""
     F = [None if e is None else frac(e) for e in ens]
@@ -194,7 +232,9 @@ def energy_margin_ok(ens, n_sigma):
     for f in w:
         d2 = (f - mu) ** 2
         if d2 == thr:
-            if d2 != 0:
+            # an exact non-zero tie (e.g. two distinct energies and n_sigma = 1: |e-mu| = sigma) is kept only when
+            # the implementation's float arithmetic is provably exact for this input
+            if d2 != 0 and not float_exact_stats(w, n_sigma):
                 return False
         elif abs(d2 - thr) <= max(d2, thr) / 10**9:
             return False
@@ -365,8 +405,12 @@ def classify_energy(ens, e_tol, n_sigma, retained, fnd, source):
 def gen_energies(rng, nmax):
     n = rng.choice([0, 1, 2, 2, 3, 3, 4, 5, 6, 8, nmax, rng.randint(0, nmax), rng.randint(0, nmax)])
     n = min(n, nmax)
-    kind = rng.choice(["clusters", "clusters", "dups", "chain", "outliers", "outliers", "uniform"])
+    kind = rng.choice(["clusters", "clusters", "dups", "chain", "outliers", "outliers", "uniform", "twolevel"])
     es = []
+    if kind == "twolevel":      # two energy levels, equally populated: every conformer is exactly one sigma from the mean
+        a, gap = Fraction(rng.randint(-16, 16), 4), Fraction(rng.choice([1, 2, 4, 8, 16]), 4)
+        es = [a] * (n // 2) + [a + gap] * (n // 2)
+        rng.shuffle(es)
     if kind in ("clusters", "outliers"):
         centers = [Fraction(rng.randint(-8, 8), 2) for _ in range(rng.randint(1, 4))]
         es = [rng.choice(centers) + rng.choice([-3, -2, -1, 0, 0, 1, 2, 3]) * U for _ in range(n)]
@@ -401,7 +445,7 @@ def bucket(n):
     return "0" if n == 0 else "1" if n == 1 else "2-3" if n <= 3 else "4-8" if n <= 8 else "9-16" if n <= 16 else "17-40"
 
 
-RMSD_TEMPLATES = [("C", "C", "O", "N"), ("C", "N", "O", "H"), ("C", "C", "O", "N", "H"), ("C", "O"), ("C", "H"), ("H", "H")]
+RMSD_TEMPLATES = [("C", "C", "O", "N"), ("C", "N", "O", "H"), ("C", "C", "O", "N", "H"), ("C", "O"), ("C", "C", "H", "H"), ("C", "H"), ("H", "H")]
 
 
 def rot_matrix(axis, theta):
@@ -435,11 +479,79 @@ def rmsd_matrix(cs):
     return [[float(calc_heavy_atom_rmsd(a, b)) for b in atoms] for a in atoms]
 
 
-R_TOLS = [0.0, 0.05, 0.1, 0.2, 0.3, None, 0.5, 1.0, -1.0]
+# ------------------------------------------------------------------------------------------------
+# INDEPENDENT oracles (written from the property's words, not from the implementation): the RMSD of the heavy
+# atoms after optimal alignment, and "same bond graph as the parent".  The implementation's own values are what
+# the model is fed; these cross-check them, so a change of geom.calc_rmsd / get_rot_mat_kabsch /
+# calc_heavy_atom_rmsd / make_graph / is_isomorphic is reported with the geometry on which it shows.
+def indep_heavy_rmsd(labels, g1, g2):
+    P = np.array([p for l, p in zip(labels, g1) if l != "H"], dtype=float)
+    Q = np.array([p for l, p in zip(labels, g2) if l != "H"], dtype=float)
+    if len(P) == 0:
+        return 0.0
+    P = P - P.mean(axis=0)
+    Q = Q - Q.mean(axis=0)
+    # min over proper rotations R of ||P R - Q||^2 = |P|^2 + |Q|^2 - 2 (s1 + s2 + sign * s3)
+    U, S, Vt = np.linalg.svd(P.T @ Q)
+    sign = 1.0 if np.linalg.det(U @ Vt) > 0 else -1.0
+    msd = (np.sum(P * P) + np.sum(Q * Q) - 2.0 * (S[0] + S[1] + sign * S[2])) / P.size
+    return float(np.sqrt(max(msd, 0.0)))
+
+
+def check_rmsd_oracle(fnd, labels, geoms, D, rep):
+    n = len(geoms)
+    for i in range(n):
+        for j in range(n):
+            want = indep_heavy_rmsd(labels, geoms[i], geoms[j])
+            if abs(D[i][j] - want) > 1e-6:
+                fnd.add("geom.calc_heavy_atom_rmsd|differs-from-independent-kabsch", n,
+                        f"calc_heavy_atom_rmsd of conformers {i} and {j} (atoms {''.join(labels)}) is {D[i][j]!r}; the heavy-atom RMSD "
+                        f"after optimal alignment, computed independently, is {want!r}",
+                        dict(rep, kind="rmsd-oracle", pair=[i, j], geoms=[geoms[i], geoms[j]], labels=list(labels)))
+                return False
+    return True
+
+
+COV_RADIUS = {"H": 0.31, "C": 0.76, "N": 0.71, "O": 0.66, "F": 0.57}
+
+
+def indep_graph(labels, geom):
+    """Bonds of a small test geometry by an independent distance rule (covalent radii x 1.25)."""
+    import networkx as nx
+    g = nx.Graph()
+    for i, l in enumerate(labels):
+        g.add_node(i, label=l)
+    X = np.array(geom, dtype=float)
+    for i in range(len(labels)):
+        for j in range(i + 1, len(labels)):
+            if np.linalg.norm(X[i] - X[j]) < 1.25 * (COV_RADIUS[labels[i]] + COV_RADIUS[labels[j]]):
+                g.add_edge(i, j)
+    return g
+
+
+def indep_iso(labels, geom, parent_geom):
+    import networkx as nx
+    return bool(nx.is_isomorphic(indep_graph(labels, geom), indep_graph(labels, parent_geom),
+                                 node_match=lambda a, b: a["label"] == b["label"]))
+
+
+def check_iso_oracle(fnd, labels, geom, parent_geom, impl_bit, rep):
+    want = indep_iso(labels, geom, parent_geom)
+    if want != impl_bit:
+        fnd.add("mol_graphs.make_graph+is_isomorphic|differs-from-independent-perception", len(labels),
+                f"make_graph + is_isomorphic says the geometry {geom} of {''.join(labels)} {'has' if impl_bit else 'has not'} the "
+                f"parent's bond graph; an independent covalent-radius perception says the opposite",
+                dict(rep, kind="graph-oracle", geom=geom, labels=list(labels)))
+    return want == impl_bit
+
+
+R_TOLS = [0.0, 0.05, 0.1, 0.2, 0.3, None, 0.5, 1.0, 1.0, -1.0]
 
 
 def rmsd_margin_ok(D, tol):
     n = len(D)
+    if tol <= 0:            # an RMSD is never below a non-positive tolerance: no decision is close
+        return True
     return all(abs(D[i][j] - tol) > 1e-9 for i in range(n) for j in range(n) if i != j)
 
 
@@ -463,6 +575,12 @@ def witnesses():
     return [
         ("Props.energy_prune_nonempty_nsigma_lt1_refuted", [0.0, 1.0], 0.01, 0.5),
         ("Props.energy_prune_idempotent_refuted", [0.0, 0.01, 0.02, 0.03, 0.04, 3.0, 10.0], 0.001, 2.0),
+        # the boundary of Props.energy_prune_nonempty: two distinct energies are EXACTLY one sigma from the mean; with
+        # n_sigma = 1 the strict `>` keeps both (`>=` would empty the set).  Float arithmetic is exact on these inputs.
+        ("boundary n_sigma = 1, two energies", [0.0, 2.0], 0.5, 1),
+        ("boundary n_sigma = 1.0, two energies and a missing one", [0.0, None, 2.0], 0.5, 1.0),
+        ("boundary n_sigma = 1, two pairs", [1.0, 1.0, 3.0, 3.0], 0.25, 1),
+        ("boundary n_sigma = 2, 1:3 split (|e-mu| = sigma*sqrt(3) for the single one: no tie) ", [0.0, 0.0, 0.0, 4.0], 0.25, 2),
         ("regression: crash of the stale index refresh (d7bdc37)", [0.0, 0.0, 10.0, None], 0.5, 1.0),
         ("identically named conformers: the duplicate at idx is the one that must go", [0.0, 0.01, 0.01, 0.02], 0.001, 5),
         ("identically named conformers with missing energies", [None, -1.0, -0.5, None, -0.5, -0.2], 0.001, 5),
@@ -496,8 +614,17 @@ def stream_energy(ctx, cases, fnd, full):
         cases.add("energy-prune", f"check_energy {coq_ens(ens)} {qc(et_f)} {qc(ns)} {coq_expect(got)}",
                   {"kind": "energy", "energies": ens, "e_tol": et_f, "n_sigma": ns, "impl": got, "witness": name},
                   ("w", name), True)
-    for _ in range(ncase):
-        kind, ens = gen_energies(rng, nmax)
+    # e_tol=None is a documented value of the argument (docstring: Energy | float | None)
+    set_name_mode("same")
+    got = run_method(build_confs([0.0, 0.5, 1.0]), lambda cs: cs.prune_on_energy(e_tol=None))
+    if isinstance(got, str):
+        fnd.add(K_ETOL_NONE, 3, f"prune_on_energy(e_tol=None) on energies [0.0, 0.5, 1.0] raised {got}: None is documented as an accepted "
+                f"value of e_tol but is formatted with ':.6f' in the warning (conformers.py:125-128). proposed patch: treat None as "
+                f"'no uniqueness pruning' (`if e_tol is None: e_tol = 0.0`) before the isinstance test, or drop None from the docstring",
+                {"kind": "energy-etol-none", "energies": [0.0, 0.5, 1.0]})
+    from autode.values import Energy
+    for k in range(ncase):
+        kind, ens = gen_energies(rng, 40 if (not full and k % 25 == 7) else nmax)
         e_tol, n_sigma = rng.choice(E_TOLS), rng.choice(N_SIGMAS)
         ctx.hist("energy-prune", "names=" + set_name_mode(rng.choice(NAME_MODES)))
         if not energy_margin_ok(ens, n_sigma):
@@ -505,6 +632,20 @@ def stream_energy(ctx, cases, fnd, full):
             continue
         got = impl_energy(ens, e_tol, n_sigma)
         classify_energy(ens, e_tol, n_sigma, got, fnd, "energy-prune")
+        if e_tol > 0 and rng.random() < 0.15:
+            # the same threshold handed over as an Energy in another unit must prune identically
+            unit = rng.choice(["kJ mol-1", "kcal mol-1", "eV", "Ha"])
+            et_obj = Energy(e_tol, "Ha").to(unit)
+            eh = float(Energy(float(et_obj), unit).to("Ha"))
+            F = [frac(e) for e in ens if e is not None]
+            if all(abs(abs(a - b) - frac(eh)) > Fraction(1, 10**9) for a, b in itertools.combinations(F, 2)):
+                got_u = run_method(build_confs(ens), lambda cs: cs.prune_on_energy(e_tol=Energy(float(et_obj), unit), n_sigma=n_sigma))
+                ref_u = impl_energy(ens, eh, n_sigma)
+                ctx.hist("energy-prune", f"e_tol-as-Energy[{unit}]")
+                if got_u != ref_u:
+                    fnd.add("Conformers.prune_on_energy|Energy-unit-changes-result", len(ens), f"prune_on_energy(e_tol=Energy({float(et_obj)!r}, "
+                            f"{unit!r}), n_sigma={n_sigma}) on {ens} retains {got_u}; the same threshold as a float in Ha ({eh!r}) retains {ref_u}",
+                            {"kind": "energy-unit", "energies": ens, "e_tol_value": float(et_obj), "unit": unit, "n_sigma": n_sigma})
         res_class = ("raises" if not isinstance(got, list) else "empty" if (ens and not got) else
                      "unchanged" if len(got) == len(ens) else "deleted")
         for h in (f"n={bucket(len(ens))}", f"kind={kind}", f"result={res_class}",
@@ -536,41 +677,86 @@ def classify_rmsd(n, D, tol, got, fnd, rep, check_empty=True):
             break
 
 
+K_TOL_RAISES = "Conformers.prune_on_rmsd|non-float-tolerance-raises"
+K_TOL_UNIT = "Conformers.prune_on_rmsd|Distance-unit-ignored"
+PATCH_TOL = ("proposed patch (conformers.py, prune_on_rmsd :180-191): `rmsd_tol = Config.rmsd_threshold if rmsd_tol is None else rmsd_tol; "
+             "if not isinstance(rmsd_tol, Distance): rmsd_tol = Distance(float(rmsd_tol), 'Å')  # Å assumed; "
+             "rmsd_tol = float(rmsd_tol.to('ang'))` and compare `calc_heavy_atom_rmsd(...) < rmsd_tol` with that float")
+
+
+def tol_argument(rng, tol):
+    """-> (python argument, kind, Coq tol_arg, threshold in Angstrom the caller means, number the code uses or None)"""
+    from autode.values import Distance
+    if tol is None:
+        return None, "None", "TNone", rmsd_tol_value(None), rmsd_tol_value(None)
+    kinds = ["float", "float", "float", "Distance-ang", "Distance-nm", "Distance-pm", "float32"]
+    if float(tol) == int(tol):
+        kinds += ["int", "int", "int"]
+    kind = rng.choice(kinds)
+    if kind == "float":
+        return float(tol), kind, f"(TFloat {qc(tol)})", tol, tol
+    if kind == "int":
+        return int(tol), kind, f"(TOther {qc(int(tol))})", tol, None
+    if kind == "float32":
+        x = np.float32(tol)
+        return x, kind, f"(TOther {qc(float(x))})", float(x), None
+    unit, f = {"Distance-ang": ("ang", 1.0), "Distance-nm": ("nm", 10.0), "Distance-pm": ("pm", 0.01)}[kind]
+    x = tol / f                       # the same length, expressed in `unit`
+    return Distance(x, unit), kind, f"(TDistance {qc(x)} {qc(Fraction(10) if unit == 'nm' else Fraction(1, 100) if unit == 'pm' else 1)})", x * f, x
+
+
 def stream_rmsd(ctx, cases, fnd, full):
     rng = ctx.rng
-    from autode.values import Distance
-    ncase = 500 if full else 110
+    ncase = 500 if full else 120
     skipped = 0
     for k in range(ncase):
-        nmax = (40 if k % 25 == 0 else 16) if full else 10
-        n = min(rng.choice([0, 1, 2, 2, 3, 4, 5, 6, 8, nmax, rng.randint(0, nmax)]), nmax)
-        labels = rng.choice(RMSD_TEMPLATES[:3] * 3 + RMSD_TEMPLATES[3:])
+        nmax = (40 if k % 12 == 0 else 16) if full else (rng.randint(21, 28) if k in (5, 60) else 10)
+        n = nmax if (not full and k in (5, 60)) else min(rng.choice([0, 1, 2, 2, 3, 4, 5, 6, 8, nmax, rng.randint(0, nmax)]), nmax)
+        labels = rng.choice(RMSD_TEMPLATES[:3] * 3 + RMSD_TEMPLATES[3:5] * 2 + RMSD_TEMPLATES[5:])
         geoms = gen_geoms(rng, n, labels)
         if n >= 2 and rng.random() < 0.5:          # exact duplicates at arbitrary positions
             geoms[rng.randrange(n)] = geoms[rng.randrange(n)]
+        if n >= 2 and rng.random() < 0.5:          # a rigidly rotated + translated copy (RMSD 0 after alignment)
+            i, j = rng.sample(range(n), 2)
+            R = rot_matrix(np.array([rng.uniform(-1, 1) for _ in range(3)]) + np.array([0.01, 0.02, 0.03]), rng.uniform(0.5, 2.6))
+            geoms[j] = [tuple(float(x) for x in row) for row in (R @ np.array(geoms[i]).T).T + np.array([0.5, -1.0, 2.0])]
         tol = rng.choice(R_TOLS)
-        tolv = rmsd_tol_value(tol)
+        arg, kind, coq_arg, meant, used = tol_argument(rng, tol)
         set_name_mode(rng.choice(NAME_MODES))
         cs = build_confs([None] * n, geoms, labels)
         D = rmsd_matrix(cs)
-        if not rmsd_margin_ok(D, tolv):
+        rep = {"kind": "rmsd", "labels": list(labels), "geoms": geoms, "rmsd_tol": tol, "tol_argument": kind,
+               "tol_argument_repr": repr(arg), "names": NAME_MODE}
+        check_rmsd_oracle(fnd, labels, geoms, D, rep)
+        if not rmsd_margin_ok(D, meant) or (used is not None and not rmsd_margin_ok(D, used)):
             skipped += 1
             continue
-        arg = tol if (tol is None or rng.random() < 0.6) else Distance(tol, "ang")
         got = run_method(cs, lambda c: c.prune_on_rmsd(rmsd_tol=arg))
-        rep = {"kind": "rmsd", "labels": list(labels), "geoms": geoms, "rmsd_tol": tol, "retained": got, "names": NAME_MODE}
-        classify_rmsd(n, D, tol, got, fnd, rep)
+        rep["retained"] = got
+        # what the property asks of this call: the result for the SAME threshold given as a plain float in Angstrom
+        ref = run_method(build_confs([None] * n, geoms, labels), lambda c: c.prune_on_rmsd(rmsd_tol=float(meant)))
+        if kind in ("int", "float32") and isinstance(got, str) and n >= 2:
+            fnd.add(K_TOL_RAISES, n, f"prune_on_rmsd(rmsd_tol={arg!r}) on {n} conformers raised {got} (a tolerance that is a number but "
+                    f"not a python float has no .to); the same tolerance as a float retains {ref}. {PATCH_TOL}", rep)
+        elif kind.startswith("Distance") and got != ref:
+            fnd.add(K_TOL_UNIT, n, f"prune_on_rmsd(rmsd_tol={arg!r}) retains {got}, but the same length as a float in Angstrom "
+                    f"({meant}) retains {ref}: a Distance is re-labelled as Angstrom whatever its unit. {PATCH_TOL}", dict(rep, reference=ref))
+        else:
+            classify_rmsd(n, D, meant, got, fnd, rep)
+            if got != ref:
+                fnd.add("Conformers.prune_on_rmsd|tolerance-argument-changes-result", n, f"prune_on_rmsd(rmsd_tol={arg!r}) retains {got}, the "
+                        f"same threshold as a float retains {ref}", dict(rep, reference=ref))
         if isinstance(got, list):
             cs2 = build_confs([None] * len(got), [geoms[i] for i in got], labels)
             again = run_method(cs2, lambda c: c.prune_on_rmsd(rmsd_tol=arg))
             if again != list(range(len(got))):
-                fnd.add("Conformers.prune_on_rmsd|not-idempotent", n, f"prune_on_rmsd(rmsd_tol={tol}): first call retains {got}, "
+                fnd.add("Conformers.prune_on_rmsd|not-idempotent", n, f"prune_on_rmsd(rmsd_tol={arg!r}): first call retains {got}, "
                         f"a second call on the result retains positions {again}", rep)
         res_class = "raises" if not isinstance(got, list) else "unchanged" if len(got) == n else "deleted"
-        for h in (f"n={bucket(n)}", f"atoms={''.join(labels)}", f"result={res_class}"):
+        for h in (f"n={bucket(n)}", f"atoms={''.join(labels)}", f"result={res_class}", f"tol-arg={kind}"):
             ctx.hist("rmsd-prune", h)
-        cases.add("rmsd-prune", f"check_rmsd {coq_nat(n)} {qc_mat(D)} {qc(tolv)} {coq_expect(got)}", rep,
-                  (tuple(map(tuple, geoms)), tol), nontrivial=(res_class != "unchanged"))
+        cases.add("rmsd-prune", f"check_rmsd_arg {coq_nat(n)} {qc_mat(D)} {qc(rmsd_tol_value(None))} {coq_arg} {coq_expect(got)}", rep,
+                  (tuple(map(tuple, geoms)), tol, kind), nontrivial=(res_class != "unchanged"))
     ctx.cov["streams"]["rmsd-prune"]["margin_skipped"] = skipped
 
 
@@ -637,6 +823,8 @@ def stream_listops(ctx, cases, fnd, full):
             c = build_confs([None], [geom], ("O", "H", "H"))[0]
             make_graph(c)
             iso_cache[key] = bool(is_isomorphic(c.graph, parent.graph, ignore_active_bonds=True))
+            check_iso_oracle(fnd, ("O", "H", "H"), [tuple(p) for p in geom], [(0.0, 0.0, 0.0), (0.96, 0.0, 0.0), (-0.24, 0.93, 0.0)],
+                             iso_cache[key], {"parent": "water"})
         return iso_cache[key]
 
     for _ in range(150 if full else 30):
@@ -734,6 +922,7 @@ def stream_prune(ctx, cases, fnd, full):
         tolv = rmsd_tol_value(tol)
         cs = build_confs(ens, geoms, labels)
         D = rmsd_matrix(cs)
+        check_rmsd_oracle(fnd, labels, geoms, D, {"kind": "prune", "names": NAME_MODE})
         # the n-sigma decision is taken on the list after remove_no_energy (same energies): margin on ens
         if not energy_margin_ok(ens, n_sigma) or not rmsd_margin_ok(D, tolv):
             skipped += 1
@@ -741,6 +930,18 @@ def stream_prune(ctx, cases, fnd, full):
         got = run_method(cs, lambda c: c.prune(e_tol=e_tol, rmsd_tol=tol, n_sigma=n_sigma, remove_no_energy=rm))
         rep = {"kind": "prune", "energies": ens, "labels": list(labels), "geoms": geoms, "e_tol": e_tol, "n_sigma": n_sigma,
                "rmsd_tol": tol, "remove_no_energy": rm, "retained": got, "names": NAME_MODE}
+        if isinstance(got, list) and got and energy_margin_ok([ens[i] for i in got], n_sigma):
+            # idempotence of the composite: a second call on the same (already pruned) object
+            again = run_method(cs, lambda c: c.prune(e_tol=e_tol, rmsd_tol=tol, n_sigma=n_sigma, remove_no_energy=rm))
+            if again != got:
+                rep2 = dict(rep, second_call=again)
+                if isinstance(again, list) and second_pass_only_new_outliers(ens, n_sigma, got, again):
+                    fnd.add(K_IDEM_PRUNE, n + (100 if frac(n_sigma) < 1 else 0), f"prune(e_tol={e_tol}, rmsd_tol={tol}, n_sigma={n_sigma}, "
+                            f"remove_no_energy={rm}) is not idempotent on energies {ens}: first call retains {got}, a second call {again} "
+                            f"(mean and sigma are recomputed from the survivors, so new outliers appear; same cause as {K_IDEM})", rep2)
+                else:
+                    fnd.add("Conformers.prune|not-idempotent-other", n, f"prune(...) on energies {ens}: first call {got}, second call {again}, "
+                            f"not explained by recomputed outliers", rep2)
         if isinstance(got, str) and not (got == "noconf" and rm and ens and all(e is None for e in ens)):
             fnd.add(f"Conformers.prune|raises-{got.split(':')[-1]}", n, f"prune(...) raised {got}", rep)
         if isinstance(got, list):
@@ -754,6 +955,53 @@ def stream_prune(ctx, cases, fnd, full):
         cases.add("prune", f"check_prune {coq_ens(ens)} {qc_mat(D)} {qc(e_tol)} {qc(n_sigma)} {qc(tolv)} {coq_bool(rm)} {coq_expect(got)}",
                   rep, (tuple(ens), tuple(map(tuple, geoms)), e_tol, n_sigma, tol, rm), nontrivial=(got != list(range(n))))
     ctx.cov["streams"].setdefault("prune", {"evaluations": 0, "distinct_nontrivial": 0})["margin_skipped"] = skipped
+
+
+K_ATOMLESS = "Conformers.prune|atomless-conformer-raises"
+PATCH_ATOMLESS = ("proposed patch (conformers.py): a conformer whose atoms are None (Conformer.optimise sets that on AtomsNotFound, "
+                  "conformer.py:110-114) is no conformer any more - drop it before comparing geometries/graphs, e.g. at the top of "
+                  "prune_on_rmsd and prune_diff_graph: `for idx in reversed(range(len(self))):\\n    if self[idx].atoms is None: del self[idx]`")
+
+
+def stream_atomless(ctx, fnd, full):
+    """Implementation only: a failed optimisation leaves a conformer without atoms (and, since fix 92378a7, without an
+    energy).  'Does not fail for any mixture of conformers with and without energies' includes these."""
+    rng = ctx.rng
+    from autode.species.molecule import Molecule
+    from autode.atoms import Atom
+    labels = ("C", "C", "O", "N")
+    parent = Molecule(name="m", atoms=[Atom(l, x=p[0], y=p[1], z=p[2]) for l, p in zip(labels, ccon_geom(0.0, False, False))])
+    for _ in range(60 if full else 12):
+        n = rng.randint(2, 6)
+        ens = [None if rng.random() < 0.2 else rng.choice([-2, -1, 0, 1, 2, 5]) / 8 for _ in range(n)]
+        geoms = [ccon_geom(rng.choice([0, 30, 60, 90, 120, 180]) * math.pi / 180, False, False) for _ in range(n)]
+        lost = sorted(rng.sample(range(n), rng.randint(1, max(1, n // 2))))
+        call = rng.choice(["prune", "prune-remove_no_energy", "prune_on_rmsd", "prune_diff_graph", "prune_on_energy", "lowest_energy"])
+        set_name_mode(rng.choice(NAME_MODES))
+        cs = build_confs(ens, geoms, labels)
+        for i in lost:
+            cs[i].atoms = None
+        energies_now = [None if c.energy is None else float(c.energy) for c in cs]
+        fn = {"prune": lambda c: c.prune(e_tol=1 / 16, rmsd_tol=0.1, n_sigma=5),
+              "prune-remove_no_energy": lambda c: c.prune(e_tol=1 / 16, rmsd_tol=0.1, n_sigma=5, remove_no_energy=True),
+              "prune_on_rmsd": lambda c: c.prune_on_rmsd(rmsd_tol=0.1),
+              "prune_diff_graph": lambda c: c.prune_diff_graph(parent.graph),
+              "prune_on_energy": lambda c: c.prune_on_energy(e_tol=1 / 16, n_sigma=5),
+              "lowest_energy": lambda c: c.lowest_energy}[call]
+        got = run_method(cs, fn)
+        ctx.count("atomless", (tuple(ens), tuple(lost), call), True,
+                  sample={"energies": ens, "atoms_set_to_None": lost, "call": call, "result": got})
+        ctx.hist("atomless", f"call={call} result={'raises' if isinstance(got, str) and got != 'noconf' else 'ok'}")
+        rep = {"kind": "atomless", "energies": ens, "atoms_set_to_None": lost, "energies_after": energies_now, "call": call,
+               "names": NAME_MODE, "result": got}
+        if isinstance(got, str) and not (got == "noconf" and call == "prune-remove_no_energy" and all(e is None for e in energies_now)):
+            fnd.add(K_ATOMLESS, n, f"Conformers.{call}(...) on {n} conformers of which {lost} have atoms = None (energies now "
+                    f"{energies_now}) raised {got}. {PATCH_ATOMLESS}", rep)
+        elif isinstance(got, list):
+            with_atoms = [i for i in got if i not in lost]
+            if call in ("prune", "prune_on_rmsd", "prune-remove_no_energy") and not with_atoms and any(i not in lost for i in range(n)) \
+                    and call != "prune-remove_no_energy":
+                fnd.add("Conformers.prune|atomless-only-retained", n, f"Conformers.{call} retained only atom-less conformers {got}", rep)
 
 
 def ccon_geom(phi, off_o, off_n):
@@ -811,6 +1059,7 @@ def stream_select(ctx, cases, fnd, full):
             c = build_confs([None], [ccon_geom(0.3, *flags)], labels)[0]
             make_graph(c)
             iso_cache[flags] = bool(is_isomorphic(c.graph, mol.graph, ignore_active_bonds=True))
+            check_iso_oracle(fnd, labels, ccon_geom(0.3, *flags), parent_geom, iso_cache[flags], {"parent": "CCON"})
         return iso_cache[flags]
 
     saved = (Conformers.optimise, Conformers.single_point, Config.hmethod_sp_conformers)
@@ -820,7 +1069,7 @@ def stream_select(ctx, cases, fnd, full):
     skipped = 0
     try:
         def draw():
-            n = rng.randint(1, 10 if full else 6)
+            n = rng.choice([0] + list(range(1, (10 if full else 6) + 1)) * 3)
             stage = rng.choice([None, None, "sp", "opt", "opt", "opt"])          # hmethod None / given
             cfg_sp = (stage == "sp") if stage else (rng.random() < 0.5)             # Config.hmethod_sp_conformers
             allow = rng.random() < 0.35
@@ -859,6 +1108,7 @@ def stream_select(ctx, cases, fnd, full):
             geoms2 = [ccon_geom(p, *f) for p, f in zip(phis2, offs2)]
             set_name_mode(rng.choice(NAME_MODES))
             D = rmsd_matrix(build_confs([None] * n, geoms1, labels))            # prune sees the low-level geometries
+            check_rmsd_oracle(fnd, labels, geoms1, D, {"kind": "select"})
             if not energy_margin_ok(ens1, n_sigma) or not rmsd_margin_ok(D, tolv):
                 skipped += 1
                 continue
@@ -879,7 +1129,21 @@ def stream_select(ctx, cases, fnd, full):
                     "final_energies": ens2, "phis": phis, "low_detached": offs1, "final_detached": offs2,
                     "final_isomorphic": isos, "names": NAME_MODE, "graphs_cached_at_generation": precached}
             Config.hmethod_sp_conformers = cfg_sp
+            # state left by earlier work on the same object: the species may already carry an energy (from another level
+            # of theory: lower than any conformer energy here) and may already have been searched once
+            prior = rng.choice(["none", "none", "lower-energy", "higher-energy", "searched-before"])
+            base["species_state_before"] = prior
             try:
+                if prior == "lower-energy":
+                    mol.energy = -25.0
+                elif prior == "higher-energy":
+                    mol.energy = 25.0
+                elif prior == "searched-before" and n > 0:
+                    shifted = method("other-level", {i: (geoms1[i], None if ens1[i] is None else ens1[i] - 3.0) for i in range(n)})
+                    try:
+                        mol.find_lowest_energy_conformer(lmethod=shifted, allow_connectivity_changes=True)
+                    except (NoConformers, RuntimeError):
+                        pass
                 mol.find_lowest_energy_conformer(lmethod=lm, hmethod=hm, allow_connectivity_changes=allow)
                 retained = [c._vtag for c in mol.conformers]
                 low = mol.conformers.lowest_energy
@@ -887,7 +1151,9 @@ def stream_select(ctx, cases, fnd, full):
                 # the species now carries the selected conformer's energy and coordinates
                 if float(mol.energy) != float(low.energy) or not np.allclose(np.asarray(mol.coordinates), np.asarray(low.coordinates), atol=1e-12):
                     fnd.add("Species.find_lowest_energy_conformer|species-not-set-to-selected", n,
-                            "after find_lowest_energy_conformer the species' energy/coordinates are not those of conformers.lowest_energy", base)
+                            f"after find_lowest_energy_conformer (species state before: {prior}; final energies {ens2}, retained {retained}) "
+                            f"the species has energy {mol.energy!r}, not the energy {low.energy!r} / coordinates of the selected conformer "
+                            f"{low._vtag} (conformers.lowest_energy)", base)
                 exp = coq_expect(retained)
             except NoConformers:
                 # from remove_no_energy, or from @requires_conformers when nothing is left to select from
@@ -969,8 +1235,23 @@ def stream_complex(ctx, cases, fnd, full):
     for combo in combos:
         mols = [make_mol(rng, w, 7.0 * k) for k, w in enumerate(combo)]
         copy = rng.random() < 0.7
+        # atom mapping re-orders the atoms of a molecule before complexes are built: with its graph already perceived
+        # ("cached") or not yet ("lazy")
+        reordered = []
+        for m in mols:
+            how = rng.choice(["no", "no", "no", "cached", "cached", "lazy"]) if m.n_atoms >= 2 else "no"
+            if how != "no":
+                perm = list(range(m.n_atoms))
+                while perm == list(range(m.n_atoms)):
+                    rng.shuffle(perm)
+                if how == "cached":
+                    assert m.graph is not None
+                m.reorder_atoms({i: perm[i] for i in range(m.n_atoms)})
+                reordered.append([how, perm])
+            else:
+                reordered.append(None)
         base_rep = {"kind": "complex", "molecules": [POOL[w][0] for w in combo], "charges": [m.charge for m in mols],
-                    "mults": [m.mult for m in mols], "copy": copy}
+                    "mults": [m.mult for m in mols], "copy": copy, "reorder_atoms": reordered}
         # unique id per constituent atom: (molecule k, atom j) -> running number
         ids, table = [], {}
         for k, m in enumerate(mols):
@@ -1018,22 +1299,31 @@ def stream_complex(ctx, cases, fnd, full):
         if flat != list(range(N)) or [len(r or []) for r in idxs[:len(mols)]] != [m.n_atoms for m in mols] or idxs[len(mols):] != [None, None]:
             fnd.add("Complex.atom_indexes|not-a-partition", len(mols), f"atom_indexes {idxs} do not partition 0..{N - 1} into the "
                     f"molecules' sizes {[m.n_atoms for m in mols]} (or accept an index out of range)", rep)
-        want_edges = []
-        off = 0
-        for m in mols:
-            want_edges += sorted((off + int(min(a, b)), off + int(max(a, b))) for a, b in m.graph.edges)
-            off += m.n_atoms
+        # independent perception of the complex's own atoms (the molecules are 7 A apart: no inter-molecular bond)
+        if cx.atoms is None:
+            want_edges, atom_labels = [], []
+        else:
+            atom_labels = [a.label for a in cx.atoms]
+            want_edges = sorted(indep_graph(atom_labels, [tuple(float(x) for x in a.coord) for a in cx.atoms]).edges)
         if nn != N or edges != want_edges or not labels_ok:
-            fnd.add("Complex.__init__|graph-not-disjoint-union", len(mols), f"graph ({nn} nodes, edges {edges}) is not the disjoint "
-                    f"union {want_edges} with the molecules' atom labels", rep)
+            node_labels = [cx.graph.nodes[i]["atom_label"] for i in range(nn)]
+            if any(r and r[0] == "cached" for r in reordered) and nn == N:
+                fnd.add(K_REORDER, len(mols), f"Complex({', '.join(rep['molecules'])}) after reorder_atoms {reordered} on molecules whose graph "
+                        f"existed: atoms are {atom_labels} but the graph's nodes are labelled {node_labels} with edges {edges}; the bonds of "
+                        f"these atoms are {want_edges}. nx.disjoint_union_all relabels by node ITERATION order, which "
+                        f"mol_graphs.reorder_nodes (nx.relabel_nodes(copy=True)) leaves in the old order. {PATCH_REORDER}", rep)
+            else:
+                fnd.add("Complex.__init__|graph-not-disjoint-union", len(mols), f"graph ({nn} nodes labelled {node_labels}, edges {edges}) is "
+                        f"not the disjoint union {want_edges} of the bond graphs of the atoms {atom_labels}", rep)
         ctx.hist("complex", f"n_molecules={len(mols)}")
         coq_ms = coq_list([f"(mkMol nat {coq_nats(row)} {coq_z(m.charge)} {coq_z(m.mult)} {coq_nat(m.graph.number_of_nodes())} "
+                           f"{coq_nats([int(x) for x in m.graph.nodes])} "        # node labels in ITERATION order
                            + coq_list([f"({coq_nat(a)}, {coq_nat(b)})" for a, b in graph_of(m.graph)[1]]) + ")"
                            for row, m in zip(ids, mols)])
         coq_idx = coq_list(["None" if r is None else f"(Some {coq_nats(r)})" for r in idxs])
         cases.add("complex", f"check_complex {coq_ms} {coq_nats(got_atoms)} {coq_z(cx.charge)} {coq_z(cx.mult)} {coq_idx} "
                   f"{coq_nat(nn)} {coq_list([f'({coq_nat(a)}, {coq_nat(b)})' for a, b in edges])}", rep,
-                  (combo, tuple(m.charge for m in mols), tuple(m.mult for m in mols), copy), nontrivial=len(mols) > 1)
+                  (combo, tuple(m.charge for m in mols), tuple(m.mult for m in mols), copy, str(reordered)), nontrivial=len(mols) > 1)
 
 
 def stream_rigid(ctx, fnd, full):
@@ -1047,7 +1337,7 @@ def stream_rigid(ctx, fnd, full):
     saved = (Config.num_complex_sphere_points, Config.num_complex_random_rotations, Config.max_num_complex_conformers)
     try:
         for t in range(30 if full else 10):
-            nm = rng.choice([1, 2, 2, 3])
+            nm = [1, 2, 3, 2, 3, 3, 2][t % 7]          # every run has several trimers
             mols = [make_mol(rng, rng.randrange(len(POOL)), 0.0) for _ in range(nm)]
             pts, rots, cap = rng.choice([2, 4, 6]), rng.choice([1, 2]), rng.choice([3, 8, 50])
             if nm == 3:
@@ -1135,6 +1425,7 @@ def run(ctx):
                      ("list-ops", lambda: stream_listops(ctx, cases, fnd, full)),
                      ("prune", lambda: stream_prune(ctx, cases, fnd, full)),
                      ("select", lambda: stream_select(ctx, cases, fnd, full)),
+                     ("atomless", lambda: stream_atomless(ctx, fnd, full)),
                      ("complex", lambda: stream_complex(ctx, cases, fnd, full)),
                      ("rigid-body", lambda: stream_rigid(ctx, fnd, full))):
         try:
